@@ -102,7 +102,7 @@ def _pipe(cor, design):
     )
 
 
-ALSO_PENDING = {
+ALSO = {
     # P1 (+ P5 as far as it is "the relay stores only what a valid delivery brought")
     "C06": [_pipe(_cor_c06, _DESIGN[:1])],
     # P2, P3, P4 (+ P5 hop accounting, tolerance / threshold / books); the larger design configurations run here
